@@ -25,7 +25,7 @@ from fractions import Fraction
 import numpy as np
 from sa import poly as P
 from sa.model import stmt_text
-from sa.symeval import Interp, to_obj, Obj
+from sa.symeval import Interp, to_obj, Obj, Unsupported
 from sa.lib import eq, all_of
 
 WMM = "ahrs/utils/wmm.py"
@@ -455,10 +455,21 @@ def synthesis(chk, prog, degree=3):
                             val = defs[0]
                             continue
                     break
-                got = it.eval(val, env)
                 want = ((n_ - 1) ** 2 - m_ ** 2) / ((2 * n_ - 1) * (2 * n_ - 3))
+                try:
+                    got = it.eval(val, env)
+                except Unsupported:
+                    break           # the right-hand side is not a closed expression of (n, m) (a table built elsewhere): compare the table that was computed
                 return eq(got, want, "k[m,n]")
-        return (None, "assignment of self.k[m, n] not found")
+        k_tab = get().attrs.get("k")
+        if k_tab is None:
+            return (None, "assignment of self.k[m, n] not found and no attribute k after the run")
+        res = []
+        for n_i in range(1, N + 1):
+            for m_i in range(n_i + 1):
+                want = P.const(P.Fraction((n_i - 1) ** 2 - m_i ** 2, (2 * n_i - 1) * (2 * n_i - 3)))
+                res.append(eq(to_obj(k_tab)[m_i, n_i], want, "k[%d,%d]" % (m_i, n_i)))
+        return all_of(*res)
     chk.ob("SYNTHESIS.k", den.ref, "k[m,n] == ((n-1)^2 - m^2)/((2n-1)(2n-3))", k_formula, module=WMM, function="WMM.denormalize_coefficients", construct="k[m,n] formula")
 
 
